@@ -168,7 +168,7 @@ func (in *Interp) trackStop() {
 	in.tracks = append(in.tracks, t)
 }
 
-// own snapshots the backing store of a caller-owned slice (including spare capacity).
+// own snapshots the contents of a caller-owned slice.
 func (in *Interp) own(v Value, tag string) {
 	if iv, isIface := v.(Iface); isIface {
 		v = iv.v
@@ -182,7 +182,9 @@ func (in *Interp) own(v Value, tag string) {
 		r.cells = append(r.cells, s.arr)
 		r.vals = append(r.vals, s.arr.v)
 	} else {
-		for i := s.off; i < s.off+s.cap && i < len(s.arr.kids); i++ {
+		// the slice's contents are its first len elements; spare capacity is not part of what the property
+		// promises (an append into it does not change what the caller sees)
+		for i := s.off; i < s.off+s.len && i < len(s.arr.kids); i++ {
 			c := s.arr.kids[i]
 			r.cells = append(r.cells, c)
 			r.vals = append(r.vals, in.load(c))
